@@ -209,6 +209,31 @@ VARIANTS += [
 ]
 
 
+# ---- round 3 (DESIGN §14): twins and further faults for the rules added after the third round of independently seeded changes
+VARIANTS += [
+    dict(id="twin-int-table", props=["C16", "C10", "C06"], module=H, edits=[
+        (H, "        if number < 2:\n            return 1\n        prod = 1\n        for i in range(2, number + 1):\n            prod *= i\n        return prod\n", "        if number not in _FACTORIALS:\n            prod = 1\n            for i in range(2, number + 1):\n                prod *= i\n            _FACTORIALS[number] = prod\n        return _FACTORIALS[number]\n", None),
+        (H, "def number_type(number: Union[int, float, Fraction]):", "_FACTORIALS = {}\n\n\ndef number_type(number: Union[int, float, Fraction]):", None)],
+        rule=None, func=None, what="a module-level table keyed by a small integer", twin=True),
+    V("size-too-few", ["C10"], CA, "        if nnodes is None:\n            nnodes = max(2, 1 + curve.degree)  # The closed rule needs 2\n        nodes_func = nodes_functs[method]\n        integ_array_func = array_functs[method]\n        nodes_0to1 = nodes_func(nnodes)\n        integ_array = integ_array_func(nnodes)\n        integrals = []\n        for piece in curve.split():  # Each piece is closed on its own span\n            start, end = piece.knotvector.limits\n            nodes = tuple(start + (end - start) * node for node in nodes_0to1)\n            curve_vals = tuple(piece.eval(node) for node in nodes)\n            function_vals", "        if nnodes is None:\n            nnodes = max(2, curve.degree)\n        nodes_func = nodes_functs[method]\n        integ_array_func = array_functs[method]\n        nodes_0to1 = nodes_func(nnodes)\n        integ_array = integ_array_func(nnodes)\n        integrals = []\n        for piece in curve.split():  # Each piece is closed on its own span\n            start, end = piece.knotvector.limits\n            nodes = tuple(start + (end - start) * node for node in nodes_0to1)\n            curve_vals = tuple(piece.eval(node) for node in nodes)\n            function_vals", "SIZE-DEFAULT", "Integrate.scalar", "one node too few for the degree"),
+    V("twin-size-gauss", ["C10"], CA, "        if nnodes is None:\n            nnodes = max(2, 1 + curve.degree)  # The closed rule needs 2\n        nodes_func = nodes_functs[method]\n        integ_array_func = array_functs[method]\n        nodes_0to1 = nodes_func(nnodes)\n        integ_array = integ_array_func(nnodes)\n        integrals = []\n        for piece in curve.split():  # Each piece is closed on its own span\n            start, end = piece.knotvector.limits\n            nodes = tuple(start + (end - start) * node for node in nodes_0to1)\n            curve_vals = tuple(piece.eval(node) for node in nodes)\n            function_vals", "        if nnodes is None:\n            nnodes = max(2, 1 + curve.degree)  # The closed rule needs 2\n            if method == \"gauss-legendre\":  # n nodes are exact up to degree 2n-1\n                nnodes = max(1, (2 + curve.degree) // 2)\n        nodes_func = nodes_functs[method]\n        integ_array_func = array_functs[method]\n        nodes_0to1 = nodes_func(nnodes)\n        integ_array = integ_array_func(nnodes)\n        integrals = []\n        for piece in curve.split():  # Each piece is closed on its own span\n            start, end = piece.knotvector.limits\n            nodes = tuple(start + (end - start) * node for node in nodes_0to1)\n            curve_vals = tuple(piece.eval(node) for node in nodes)\n            function_vals", None, None, "Gauss rule with ceil((p+1)/2) nodes: still exact", twin=True),
+    V("twin-or-equal", ["C17"], H, "        if self.limits != other.limits:\n            raise ValueError\n        all_knots = list(self.knots) + list(other.knots)", "        if self.limits != other.limits:\n            raise ValueError\n        if self == other:\n            return self\n        all_knots = list(self.knots) + list(other.knots)", None, None, "shortcut for equal vectors", twin=True),
+    V("and-shortcut-knots", ["C17"], H, "        if self.limits != other.limits:\n            raise ValueError\n        all_knots = tuple(sorted(set(self.knots) & set(other.knots)))", "        if self.limits != other.limits:\n            raise ValueError\n        if self.knots == other.knots:\n            return other\n        all_knots = tuple(sorted(set(self.knots) & set(other.knots)))", "BOTH-MULTS", "__and__", "shortcut on equal distinct knots"),
+    V("twin-filter-local", ["C20"], A, "                if np.linalg.norm(pair - filtpair) < tolerance:\n                    inside = True", "                gap = np.linalg.norm(pair - filtpair)\n                if gap < tolerance:\n                    inside = True", None, None, "distance through a local", twin=True),
+    V("filter-one-component", ["C20"], A, "                if np.linalg.norm(pair - filtpair) < tolerance:\n                    inside = True", "                if abs((pair - filtpair)[0]) < tolerance:\n                    inside = True", "ALL-COMPONENTS", "filter_pairs", "only the first parameter compared"),
+    V("twin-pivot-continue", ["C12"], H, "                for i in range(k + 1, side):\n                    if matrix[i, k] != 0:\n                        matrix[[k, i]] = matrix[[i, k]]\n                        break", "                for i in range(k + 1, side):\n                    if matrix[i, k] == 0:\n                        continue\n                    matrix[[k, i]] = matrix[[i, k]]\n                    break", None, None, "pivot search with continue", twin=True),
+    V("twin-neg-unary", ["C08"], C, "        newctrlpoints = [-1 * ctrlpt for ctrlpt in newcurve.ctrlpoints]", "        newctrlpoints = [-ctrlpt for ctrlpt in newcurve.ctrlpoints]", None, None, "unary minus on the points", twin=True),
+    V("mul-scalar-square", ["C08"], C, "            copied.ctrlpoints = [point * other for point in copied.ctrlpoints]", "            copied.ctrlpoints = [point * other * (point / point) for point in copied.ctrlpoints]", "AFFINE-MAP", "__mul__", "control points mapped by a non-affine expression on the kept basis"),
+    V("twin-quotient-one-expr", ["C09"], CA, "        deriva = dnumer * denom - numer * ddenom\n        deriva /= denom * denom\n        return deriva", "        deriva = (dnumer * denom - numer * ddenom) / (denom * denom)\n        return deriva", None, None, "quotient rule in one expression", twin=True),
+    V("quotient-single-denominator", ["C09"], CA, "        deriva /= denom * denom\n", "        deriva /= denom\n", "RESULT-HOMOG", "rational_spline", "divided by W instead of W^2"),
+    V("twin-join-one-list", ["C07"], C, "            newweights = [factor0 * weight for weight in weights0]\n            newweights += [factor1 * weight for weight in weights1]\n", "            newweights = [factor0 * weight for weight in weights0] + [factor1 * weight for weight in weights1]\n", None, None, "joined weights in one expression", twin=True),
+    V("join-own-junction-weight", ["C07"], C, "            factor0, factor1 = weights1[0], weights0[-1]\n", "            factor0, factor1 = weights0[-1], weights1[0]\n", "JOIN-HOMOG", "__or__", "each side scaled by its own junction weight"),
+    V("twin-sorted-ge", ["C03"], H, "            if not vector[i] <= vector[i + 1]:\n                return False", "            if not (vector[i + 1] >= vector[i]):\n                return False", None, None, "sortedness test mirrored", twin=True),
+    V("sorted-lt-reversed", ["C03"], H, "            if not vector[i] <= vector[i + 1]:\n                return False", "            if vector[i + 1] < vector[i]:\n                return False", "UNORDERED", "__is_valid", "positive rejection test lets NaN through"),
+    V("twin-fit-nodes-keyword", ["C06", "C05", "C11"], C, "            transmat, materror = lstsq(vectorb, vectora, nodes)\n            transmat = np.array(transmat)\n            oldweights = other.weights", "            transmat, materror = lstsq(vectorb, vectora, fit_nodes=nodes)\n            transmat = np.array(transmat)\n            oldweights = other.weights", None, None, "nodes passed by keyword", twin=True),
+]
+
+
 def _sources(src_dir: str, v: dict) -> Optional[dict]:
     edits = v.get("edits") or [(v["module"], v["old"], v["new"])]
     out: Dict[str, str] = {}
